@@ -189,6 +189,10 @@ impl Tableau {
         variables_to_avoid: &[usize],
         use_bland: bool,
     ) -> Result<StepAction, SimplexError> {
+        #[cfg(feature = "verif-hooks")]
+        if verif::should_observe() {
+            return verif::observe(self, variables_to_avoid, use_bland);
+        }
         if self.is_optimal() {
             return Ok(StepAction::Finished);
         }
@@ -332,5 +336,93 @@ impl Tableau {
     }
     pub fn in_basis(&self) -> &Vec<usize> {
         &self.in_basis
+    }
+}
+
+/// Thread-local, off-by-default event log of every simplex step, for
+/// verification harnesses: the tableau before the step, the rule in use, the
+/// outcome and the tableau after it.
+#[cfg(feature = "verif-hooks")]
+pub mod verif {
+    use super::Tableau;
+    use crate::solvers::{SimplexError, StepAction};
+    use std::cell::{Cell, RefCell};
+
+    #[derive(Debug, Clone)]
+    pub enum StepOutcome {
+        Pivot {
+            entering: usize,
+            leaving: usize,
+            ratio: f64,
+        },
+        Finished,
+        Unbounded,
+        Other,
+    }
+
+    #[derive(Debug, Clone)]
+    pub struct StepEvent {
+        pub before: Tableau,
+        pub use_bland: bool,
+        pub avoided: Vec<usize>,
+        pub outcome: StepOutcome,
+        pub after: Tableau,
+    }
+
+    thread_local! {
+        static LOG: RefCell<Option<Vec<StepEvent>>> = const { RefCell::new(None) };
+        static IN_HOOK: Cell<bool> = const { Cell::new(false) };
+    }
+
+    /// Starts recording on this thread, discarding any previous log.
+    pub fn start() {
+        LOG.with(|log| *log.borrow_mut() = Some(Vec::new()));
+    }
+
+    /// Stops recording on this thread and returns what was recorded.
+    pub fn take() -> Vec<StepEvent> {
+        LOG.with(|log| log.borrow_mut().take().unwrap_or_default())
+    }
+
+    pub(super) fn should_observe() -> bool {
+        !IN_HOOK.with(|flag| flag.get()) && LOG.with(|log| log.borrow().is_some())
+    }
+
+    pub(super) fn observe(
+        tableau: &mut Tableau,
+        variables_to_avoid: &[usize],
+        use_bland: bool,
+    ) -> Result<StepAction, SimplexError> {
+        let before = tableau.clone();
+        IN_HOOK.with(|flag| flag.set(true));
+        let result = tableau.step_inner(variables_to_avoid, use_bland);
+        IN_HOOK.with(|flag| flag.set(false));
+        let outcome = match &result {
+            Ok(StepAction::Pivot {
+                entering,
+                leaving,
+                ratio,
+            }) => StepOutcome::Pivot {
+                entering: *entering,
+                leaving: *leaving,
+                ratio: *ratio,
+            },
+            Ok(StepAction::Finished) => StepOutcome::Finished,
+            Err(SimplexError::Unbounded) => StepOutcome::Unbounded,
+            Err(_) => StepOutcome::Other,
+        };
+        let event = StepEvent {
+            before,
+            use_bland,
+            avoided: variables_to_avoid.to_vec(),
+            outcome,
+            after: tableau.clone(),
+        };
+        LOG.with(|log| {
+            if let Some(log) = log.borrow_mut().as_mut() {
+                log.push(event);
+            }
+        });
+        result
     }
 }
